@@ -93,6 +93,13 @@ CANARIES = [
     ('delete-marks-dirty-on-error', 'C01', 'src/bucket.rs', '                let current_id = last.id;\n                let index = last.index;\n                self.dirty = true;\n                let node = self.node(current_id, None);\n                let mut node = node.borrow_mut();\n                match node.delete(index) {', '                let current_id = last.id;\n                let index = last.index;\n                let node = self.node(current_id, None);\n                let mut node = node.borrow_mut();\n                match node.delete(index) {'),
     ('put-leaf-counts-replacements', 'C01', 'src/bucket.rs', '            Some(current)\n        } else {\n            self.meta.next_int += 1;\n            None\n        };', '            self.meta.next_int += 1;\n            Some(current)\n        } else {\n            self.meta.next_int += 1;\n            None\n        };'),
     ('put-leaf-bumps-before-kind-check', 'C01', 'src/bucket.rs', '            let current = page_node.val(last.index).unwrap();\n            if current.is_kv() != leaf.is_kv() {', '            let current = page_node.val(last.index).unwrap();\n            self.dirty = true;\n            if current.is_kv() != leaf.is_kv() {'),
+    # tree layer outside the verifier's reach: these are for the BOUNDED stand-ins that run in the quick tier
+    ('tree-merge-leaves-unsorted', 'C01', 'src/node.rs', '                l1.append(l2);\n                l1.sort_unstable_by_key(|l| l.key_bytes());', '                l1.append(l2);'),
+    ('tree-split-drops-boundary', 'C01', 'src/node.rs', '            NodeData::Leaves(l) => NodeData::Leaves(l.split_off(index)),', '            NodeData::Leaves(l) => { let mut r = l.split_off(index); if r.len() > 2 { r.remove(0); } NodeData::Leaves(r) }'),
+    ('tree-node-page-not-freed', 'C05', 'src/node.rs', '        if self.page_id != 0 {\n            tx_freelist.free(self.page_id, self.num_pages);', '        if self.page_id != 0 && self.num_pages > 1 {\n            tx_freelist.free(self.page_id, self.num_pages);'),
+    ('tree-merge-keeps-separator', 'C05', 'src/bucket.rs', '                                sibling.original_key = Some(sibling.data.first_key());\n', ''),
+    ('tree-promote-needs-node', 'C01', 'src/bucket.rs', '        let root = self.node(PageNodeID::Page(self.meta.root_page), None);', '        let root = self.nodes[self.page_node_ids[&self.meta.root_page] as usize].clone();'),
+    ('tree-keep-empty-only-child', 'C01', 'src/bucket.rs', '                        if branches.len() == 1 && node.data.len() > 0 {', '                        if branches.len() == 1 {'),
     ('delbucket-no-already-freed-guard', 'C05', 'src/bucket.rs', '                                if !freelist.is_freed(meta.root_page) {\n                                    remaining_pages.push(meta.root_page);\n                                }', '                                remaining_pages.push(meta.root_page);'),
     ('isfreed-other-tx', 'C05', 'src/freelist.rs', '            .get(&self.meta.tx_id)\n            .map_or(false, |pages| pages.contains(&page_id))', '            .get(&(self.meta.tx_id - 1))\n            .map_or(false, |pages| pages.contains(&page_id))'),
     ('getter-create-over-cached', 'C01', 'src/bucket.rs', '        } else if must_create {\n            return Err(Error::BucketExists);\n        }', '        }'),
@@ -101,7 +108,8 @@ CANARIES = [
 ]
 
 
-KANI_CANARIES = set()
+# canaries that need the Kani groups / the bounded stand-ins of the quick tier (everything else runs with --no-kani for speed)
+KANI_CANARIES = set(c[0] for c in CANARIES if c[0].startswith('tree-'))
 
 
 def run_canary(c, keep=False):
